@@ -161,9 +161,21 @@ def check(cid, tier, seed):
         src.anchors.append(dict(name="translate", ok=False, value=None, detail=f"{type(e).__name__}: {e}"))
         gen_text = None
     anchors = src.anchors
+    # tables of the properties whose Lean files this property imports are regenerated from the same tree,
+    # so that no stale Gen file of another check's run can influence (or break) this build
+    dep_gen = {}
+    for dep in core.dependency_props(cid):
+        try:
+            dsrc = core.Source(REPO)
+            dep_gen[dep] = load_module(dep).translate(dsrc)
+            for a in dsrc.anchors:
+                if not a["ok"]:
+                    anchors.append(dict(name=f"{dep}:{a['name']}", ok=False, value=None, detail="anchor of a property this one builds on: " + str(a.get("detail", ""))))
+        except Exception as e:
+            anchors.append(dict(name=f"{dep}:translate", ok=False, value=None, detail=f"{type(e).__name__}: {e}"))
     # ---- B build + audit ---------------------------------------------------------------------
     try:
-        ba = core.build_and_audit(cid, gen_text, log, tier)
+        ba = core.build_and_audit(cid, gen_text, log, tier, dep_gen)
     except Exception as e:
         log(f"infrastructure failure in build: {e}")
         return 2
